@@ -155,6 +155,9 @@ func prop(t *rapid.T) {
 	if len(tb.Routes) == 0 {
 		t.Skip("empty table")
 	}
+	if model.LongPrefix(t, tb.Routes, 6) {
+		ev.Class("table:all-routes-below-a-long-first-segment")
+	}
 	s := &seen{mutate: rapid.Bool().Draw(t, "handlersMutateParams")}
 	if s.mutate {
 		ev.Class("handlers-mutate-their-params")
